@@ -32,12 +32,13 @@ META = dict(
     'one-sided lower bound at confidence sig_level is tq_pow x scale; (d) '
     'required impact scales linearly with the response unit, ignores level '
     'shifts, and estimate_required_impact strictly decreases in |corr|.',
-    bounds=dict(quick='all cells symbolic: (n_pre, n_test) in {(3,1), (3,2), '
-                '(4,2)}; pre-period control series a listed concrete series, '
-                'treatment series / test period / levels symbolic: (4,4), '
-                '(5,3)',
-                thorough='all symbolic adds (4,1), (4,4); concrete-control '
-                'adds (6,2), (8,4), (10,7)'),
+    bounds=dict(quick='all cells symbolic: (n_pre, n_test) in {(3,1), (3,2)}; '
+                'pre-period control series a listed concrete series, '
+                'treatment series / test period / levels symbolic: (4,2), '
+                '(4,4), (5,3) (fully symbolic n_pre = 4 leaves z3 nlsat '
+                'without an answer in 120 s on the implicit corr definition)',
+                thorough='all symbolic adds (3,4), (3,7); concrete-control '
+                'adds (6,2), (8,4), (10,7), (12,14)'),
     outside='flevel concrete 0.9 (it only selects the purified F quantile); '
     'n_pre > 10; numerical accuracy of scipy; the float constants 1/n and '
     '1/n_test are not exact rationals unless n, n_test are powers of two: '
@@ -389,11 +390,11 @@ def conformance_job(name, seed=0):
 
 def jobs(tier, seed):
   out = []
-  full = [(3, 1), (3, 2), (4, 2)]
-  xconc = [(4, 4), (5, 3)]
+  full = [(3, 1), (3, 2)]
+  xconc = [(4, 2), (4, 4), (5, 3)]
   if tier == 'thorough':
-    full += [(4, 1), (4, 4)]
-    xconc += [(6, 2), (8, 4), (10, 7)]
+    full += [(3, 4), (3, 7)]
+    xconc += [(6, 2), (8, 4), (10, 7), (12, 14)]
   for shapes, xc in ((full, False), (xconc, True)):
     for n, T in shapes:
       name = 'n%d-T%d%s' % (n, T, '-xconcrete' if xc else '')
